@@ -5,6 +5,7 @@ Property theorems only; helper lemmas live in `ConfModel.Lemmas.H2*`.
 import ConfModel.Generated.C15Facts
 import ConfModel.Lemmas.H2Frame
 import ConfModel.Lemmas.H2Retry
+import ConfModel.Lemmas.H2FrameSpec
 import ConfModel.Spec.H2
 namespace ConfModel.Props.C15
 open ConfModel.H2 ConfModel.H2.Machine
@@ -41,6 +42,53 @@ theorem reassembly_inv_init (isReq : Bool) (hp : σ) : FInv (FSt.init isReq hp) 
 theorem reassembly_inv_step (dec : Bytes → σ → Option (Frame × σ)) (s : FSt σ) (hs : FInv s) (d : Bytes) :
     FInv (frameTrace dec s d).1 :=
   inv_run' (frame_lawful dec) s d hs
+
+/-- **Reassembly = the frames.**  If a direction's bytes are the client preface (request
+direction only) followed by the encodings of raw frames `fs` (any types, flags, stream ids,
+payloads below 2^24 bytes), the tracer hands to the decoder exactly those frames in order,
+with header blocks (HEADERS/CONTINUATION… up to END_HEADERS) joined, and stops for good at
+the first unit the decoder rejects (`specFrames`). -/
+theorem reassembly_eq_frames (dec : Bytes → σ → Option (Frame × σ)) (isReq : Bool) (hp : σ)
+    (fs : List RawFrame) (hok : ∀ f ∈ fs, f.ok) :
+    (frameTrace dec (FSt.init isReq hp) ((if isReq then clientPreface else []) ++ (fs.map RawFrame.enc).flatten)).2
+      = (specFrames dec [] hp fs).1 ∧
+    (frameTrace dec (FSt.init isReq hp) ((if isReq then clientPreface else []) ++ (fs.map RawFrame.enc).flatten)).1.broken
+      = (specFrames dec [] hp fs).2 := by
+  cases isReq with
+  | false =>
+    have hs : AtB (FSt.init false hp) := ⟨fun h => (by cases h.1), rfl, rfl, rfl, rfl⟩
+    simpa [FSt.init] using run_frames dec fs (FSt.init false hp) hs hok
+  | true =>
+    have hs : AtB ({ FSt.init true hp with preface := clientPreface } : FSt σ) :=
+      ⟨fun h => (by have := h.2; simp [clientPreface, prefaceLen] at this), rfl, rfl, rfl, rfl⟩
+    have h := run_frames dec fs _ hs hok
+    simp only [if_true]
+    unfold frameTrace at h ⊢
+    rw [run_append (frame_lawful dec) _ clientPreface _ (FInv_init true hp)]
+    have hpre := run_preface dec hp
+    unfold frameTrace at hpre
+    rw [hpre]
+    simpa [comb, FSt.init] using h
+
+/-- … and therefore the same holds for every way of cutting those bytes into calls. -/
+theorem reassembly_eq_frames_chunked (dec : Bytes → σ → Option (Frame × σ)) (isReq : Bool) (hp : σ)
+    (fs : List RawFrame) (hok : ∀ f ∈ fs, f.ok) (chunks : List Bytes)
+    (hc : chunks.flatten = (if isReq then clientPreface else []) ++ (fs.map RawFrame.enc).flatten) :
+    ((frameMachine dec).runChunks (FSt.init isReq hp) chunks).2 = (specFrames dec [] hp fs).1 ∧
+    ((frameMachine dec).runChunks (FSt.init isReq hp) chunks).1.broken = (specFrames dec [] hp fs).2 := by
+  rw [reassembly_chunk_independent dec _ (FInv_init isReq hp), hc]
+  exact reassembly_eq_frames dec isReq hp fs hok
+
+/-- non-vacuity: SETTINGS, then HEADERS without END_HEADERS + CONTINUATION (one unit of
+9+2+9+1 bytes), then DATA; the decoder here reports the unit's length as a stream id. -/
+example :
+    let dec : Bytes → Nat → Option (Frame × Nat) := fun b n => some (Frame.rst b.length n, n + 1)
+    let fs : List RawFrame := [⟨4, 0, [0, 0, 0, 0], []⟩, ⟨1, 0, [0, 0, 0, 1], [0x82, 0x86]⟩, ⟨9, 4, [0, 0, 0, 1], [0x84]⟩,
+      ⟨0, 1, [0, 0, 0, 1], [1, 2, 3]⟩]
+    (∀ f ∈ fs, f.ok) ∧ (specFrames dec [] 0 fs) = ([Frame.rst 9 0, Frame.rst 21 1, Frame.rst 12 2], false) ∧
+    (frameTrace dec (FSt.init true 0) (clientPreface ++ (fs.map RawFrame.enc).flatten)).2
+      = [Frame.rst 9 0, Frame.rst 21 1, Frame.rst 12 2] := by
+  decide
 
 /-- non-vacuity: a SETTINGS frame after the preface, cut in the middle of the preface and of
 the frame header, is decoded once (decoder: every unit is `other`) -/
